@@ -153,6 +153,17 @@ def run(ctx, P):
         check_against_ref(ctx, "Hexital.candles(tf)", hx.candles(tf), ref)
         base = [dict(ts=t, open=c.open, high=c.high, low=c.low, close=c.close, volume=c.volume) for c, t in zip(cs, ts)]
         ctx.equal("Hexital base candles untouched", lib_view(ctx, hx.candles()), base)
+        # one feed of Candle objects consumed by two Hexitals that collapse at Hexital level, and a third built later from the
+        # very same objects: each holds the buckets of the stream, the feed's own objects stay what they were
+        feed = clone(cs)
+        first, second = Hexital("a", [], [build("EMA", dict(period=2))], timeframe=tf), Hexital("b", [], [build("SMA", dict(period=2))], timeframe=tf)
+        for c in feed:
+            first.append(c)
+            second.append(c)
+        check_against_ref(ctx, "two Hexitals on one feed / first", first.candles(), ref)
+        check_against_ref(ctx, "two Hexitals on one feed / second", second.candles(), ref)
+        third = Hexital("c", feed, [build("EMA", dict(period=2))], timeframe=tf)
+        check_against_ref(ctx, "a Hexital built later from the same objects", third.candles(), ref)
 
 
 META = dict(
